@@ -184,12 +184,91 @@ def split_call_shifts(tracks, cuts, ppqn=24):
     return out
 
 
-def d19_outcome(detail, shifts):
-    """does a failure detail of C03's `chunked` oracle ("… <reference list>, chunked <list> (partition …)") show D19's effect and nothing else:
-    every tick of the chunked list (note onset / bar end / signature tick) is a tick of the reference moved EARLIER by 0 or by one of the
-    predicted cumulative amounts, at least one is moved, and nothing lies later than the reference allows"""
+def d19_falls(tracks, cuts, ppqn=24):
+    """D19 for chunks of Bar objects (oracle chunked), as SPANS in the ticks of the single call: for every call that stalls, (where the call
+    returns, the cut it should have reached) = (start, end) of its last bar.  Everything the later calls emit lies earlier by end - start."""
+    bars = bars_plain(tracks, ppqn)
+    return [(bars[c - 1][0], bars[c - 1][1]) for c in sorted({c for c in cuts if 0 < c < len(bars)}) if stalled_chunk_plain(tracks, [c], ppqn)]
+
+
+def split_call_falls(tracks, cuts, ppqn=24):
+    """the same for chunks cut by `Sequence.split` (see split_call_shifts, whose amounts are the lengths of these spans): (where the call
+    returns, the cut) for every call that falls short, base ticks"""
+    bars = bars_plain(tracks, ppqn)
+    lines = [0] + [e for _, e in bars]
+    notes, sigs, caps, wf = piece_of_tracks(tracks)
+    allnotes = [(on, on + d) for ns in notes for (p, on, d, v) in ns]
+    out, lo = [], 0
+    for c in sorted({c for c in cuts if 0 < c < len(bars)}):
+        a, b = lines[lo], lines[c]
+        onsets = [on for (on, off) in allnotes if a <= on < b] + [t for (t, _, _) in sigs if a <= t < b]
+        if not any(off == b for (on, off) in allnotes if a <= on < b):
+            onsets.append(b)
+        last = max(onsets + [a])
+        end = last if last in lines else min(x for x in lines if x > last)
+        if end < b:
+            out.append((end, b))
+        lo = c
+    return out
+
+
+def _pair_as_view(notes):
+    """the notes a reader pairs off a sequence holding `notes` = [(pitch, onset, duration, velocity)] (one channel), the way tokutil.detok_view
+    reads them: events in the absolute view's order (tick, note-off before note-on, pitch), a note-on paired with the next note-off of its
+    pitch, a second note-on of a sounding pitch replacing the first.  Without two notes of one pitch on one tick this is the identity."""
+    evs = []
+    for (p, on, d, v) in notes:
+        evs.append((on, 1, p, v))
+        evs.append((on + d, 0, p, v))
+    evs.sort(key=lambda e: (e[0], e[1], e[2]))
+    open_, out = {}, []
+    for (t, ty, p, v) in evs:
+        if ty == 1:
+            open_[p] = (t, v)
+        elif p in open_:
+            on, v0 = open_.pop(p)
+            out.append((p, on, t - on, v0))
+    return sorted(out)
+
+
+def d19_predict(kind, ref, falls, ppqn=24):
+    """what D19 makes of the single call's list `ref`, from the predicted spans `falls` = [(where a call returned, the cut it should have
+    reached)] (ticks of the single call).  A call that returns early leaves its clock on `ret`; the next call lays its events from there, so
+    every event at or after the cut lies earlier by (cut - ret), cumulatively over the calls that fell short; the bar ends the early call
+    never reached (ret < e <= cut) are not emitted at all.
+    kind 'notes': ref = [(pitch, onset, duration, velocity)] — the whole tuples move, none is lost or invented; the result is read the way the
+    view reads it (`_pair_as_view`: a note laid exactly onto a sounding note of its pitch merges with it);
+    kind 'bar-grid': ref = [bar end] (the view holds them as a sorted set);
+    kind 'signatures': ref = change points [(tick, bar length)] — every change moves like a note onset; of two on one tick the later one is in
+    force, a change to the length already in force is none (before the first: the default 8/8)."""
+    acc = lambda t, strict=False: sum(cut - ret for (ret, cut) in falls if (cut < t if strict else cut <= t))  # noqa: E731
+    if kind == "notes":
+        return _pair_as_view([(p, on - acc(on), d, v) for (p, on, d, v) in ref])
+    if kind == "bar-grid":
+        return sorted({e - acc(e, True) for e in ref if not any(ret < e <= cut for (ret, cut) in falls)})
+    at = {}
+    for (t, ln) in ref:
+        at[t - acc(t)] = ln
+    out, cur = [], ppqn * 4
+    for t in sorted(at):
+        if at[t] != cur:
+            out.append((t, at[t]))
+            cur = at[t]
+    return out
+
+
+def d19_outcome(clause, detail, falls, ppqn=24, grid=None):
+    """does a failure detail of C03's `chunked` / `chunked_split` oracle ("… <reference list>, chunked <list> (partition …)") show D19's
+    effect and nothing else (audit round 4, B3: whole tuples, nothing missing, every event after the j-th early return shifted by exactly the
+    cumulative amount): the chunked list IS `d19_predict` of the reference list, and differs from it.  Against the single call on the
+    GENERATED tracks the oracle compares the bar ends only as far as both lists go (the generated tracks may stop before their last bar ends, so
+    that list is a beginning of the bar lines `grid`, which the caller computes from the signatures of the plain input): there the chunked list
+    must be a beginning of the prediction made from the whole grid.  The exact test is the one against the re-joined bars, which every such
+    input gets as well."""
     import ast
     import re
+    if clause not in ("notes", "bar-grid", "signatures") or not falls:
+        return False
     lists = re.findall(r"\[(?:[^\[\]])*\]", detail)
     if len(lists) < 2:
         return False
@@ -197,20 +276,23 @@ def d19_outcome(detail, shifts):
         ref, got = ast.literal_eval(lists[0]), ast.literal_eval(lists[1])
     except Exception:
         return False
-
-    def ticks(xs):
-        out = []
-        for x in xs:
-            if isinstance(x, tuple):
-                out.append(x[1] if len(x) == 4 else x[0])          # note (pitch, on, dur, vel) / timeline (tick, length)
-            else:
-                out.append(x)                                       # bar end
-        return out
-    rt, gt = ticks(ref), ticks(got)
-    if not all(isinstance(t, int) for t in rt + gt):
+    if clause == "notes":
+        if not all(isinstance(x, tuple) and len(x) == 4 and all(isinstance(y, int) for y in x) for x in ref + got):
+            return False
+        return sorted(got) == d19_predict("notes", ref, falls) and sorted(got) != sorted(ref)
+    if clause == "signatures":
+        if not all(isinstance(x, tuple) and len(x) == 2 and all(isinstance(y, int) for y in x) for x in ref + got):
+            return False
+        return got == d19_predict("signatures", ref, falls, ppqn) and got != ref
+    if not all(isinstance(x, int) for x in ref + got):
         return False
-    allowed = {t - s for t in rt for s in [0] + list(shifts)}
-    return bool(shifts) and all(t in allowed for t in gt) and sorted(gt) != sorted(rt) and sum(gt) <= sum(rt) and len(gt) <= len(rt)
+    if "on the generated tracks" in detail:
+        if grid is None or ref != list(grid)[:len(ref)]:
+            return False
+        pred, k2 = d19_predict("bar-grid", list(grid), falls), min(len(ref), len(got))
+        return 0 < len(got) <= len(pred) and got == pred[:len(got)] and got[:k2] != ref[:k2]
+    pred = d19_predict("bar-grid", ref, falls)
+    return got == pred and got != ref
 
 
 # ----------------------------------------------------------------------------- configurations: step lists, value lists, resolutions
